@@ -1,9 +1,22 @@
 (* Proofs about the scheduled-task model TaskFut.v (C10). *)
 From Asynq Require Import Base Futures TaskFut proofs.FuturesProofs.
 
-(* the callback records produced by notifying [subs] with outcome [oc] *)
-Definition notes (subs : list (Z * cbkind)) (oc : outcome) : list (Z * outcome) :=
-  map (fun sb => (fst sb, oc)) subs.
+(* [notes l oc] (the callback records produced by notifying [l] with outcome [oc]) and
+   [after_notify l] (the live subscription list after the subscribers registered in [l] were
+   notified and did what their scripts say) come from FuturesProofs *)
+
+Lemma tcomplete_log s o : tlog (tcomplete s o) = tlog s ++ notes (tsubs s) o.
+Proof. cbn. unfold notes. now rewrite notify_snapshot, map_map. Qed.
+Lemma tcomplete_subs s o : tsubs (tcomplete s o) = after_notify (tsubs s).
+Proof. reflexivity. Qed.
+Lemma tcomplete_out s o : tout (tcomplete s o) = Some o.
+Proof. reflexivity. Qed.
+Lemma tcomplete_gen s o : tgen (tcomplete s o) = None.
+Proof. reflexivity. Qed.
+Lemma tcomplete_runs s o : truns (tcomplete s o) = truns s.
+Proof. reflexivity. Qed.
+Local Arguments tcomplete : simpl never.
+Global Hint Rewrite tcomplete_log tcomplete_subs tcomplete_out tcomplete_gen tcomplete_runs : tc.
 
 (* [s'] was reached from [s] without any completion: outcome and callback log untouched,
    subscribers only appended *)
@@ -12,13 +25,14 @@ Definition quiet (s s' : tstate) : Prop :=
 
 (* [s'] was reached from [s] through exactly one completion, with outcome [oc]: every subscriber
    registered before it ([tsubs s] and those added meanwhile, [mid]) was called exactly once, in
-   order, and saw [oc] - the outcome the future reports afterwards; subscribers added after the
+   order, and saw [oc] - the outcome the future reports afterwards - whatever these subscribers did
+   to the subscription list while being notified ([after_notify]); subscribers added after the
    completion ([later]) were not called *)
 Definition completed_once (s s' : tstate) : Prop :=
   exists oc mid later,
     tout s' = Some oc /\
     tlog s' = tlog s ++ notes (tsubs s ++ mid) oc /\
-    tsubs s' = (tsubs s ++ mid) ++ later.
+    tsubs s' = after_notify (tsubs s ++ mid) ++ later.
 
 Lemma quiet_refl s : quiet s s.
 Proof. repeat split; auto. exists []. now rewrite app_nil_r. Qed.
@@ -52,11 +66,11 @@ Proof. repeat split; auto. exists []. cbn. now rewrite app_nil_r. Qed.
 Lemma inner_notify_once_after c s o :
   let s' := fst (istep c s o) in
   match tout s, tout s' with
-  | None, Some oc => tlog s' = tlog s ++ notes (tsubs s) oc /\ tsubs s' = tsubs s
+  | None, Some oc => tlog s' = tlog s ++ notes (tsubs s) oc /\ tsubs s' = after_notify (tsubs s)
   | _, _ => tlog s' = tlog s
   end.
 Proof.
-  destruct o; cbn; destruct (tout s) eqn:E; cbn; rewrite ?E; auto.
+  destruct o; cbn; destruct (tout s) eqn:E; cbn; autorewrite with tc; rewrite ?E; auto.
 Qed.
 
 (* completing a suspended task from outside: the outcome is stored, the generator is closed and
@@ -66,11 +80,11 @@ Lemma ext_set_completes c s :
   tout s = None ->
   (forall v, let '(s', r) := istep c s (ISetValue v) in
      tout s' = Some (Ok v) /\ tgen s' = None /\ tlog s' = tlog s ++ notes (tsubs s) (Ok v) /\
-     r = close_result c) /\
+     tsubs s' = after_notify (tsubs s) /\ r = close_result c) /\
   (forall e, let '(s', r) := istep c s (ISetError e) in
      tout s' = Some (Err e) /\ tgen s' = None /\ tlog s' = tlog s ++ notes (tsubs s) (Err e) /\
-     r = close_result c).
-Proof. intros H; split; intros; cbn; rewrite H; cbn; auto. Qed.
+     tsubs s' = after_notify (tsubs s) /\ r = close_result c).
+Proof. intros H; split; intros; cbn; rewrite H; autorewrite with tc; auto. Qed.
 
 Definition ireport (o : iop) (oc : outcome) : res :=
   match o with
@@ -106,8 +120,8 @@ Lemma istep_uncomputed c s o :
 Proof.
   intros H. destruct o as [|v|e|id k| | |]; cbn; rewrite ?H; cbn;
     try (left; split; [reflexivity|apply quiet_refl]).
-  - right. exists (Ok v), [], []. cbn. rewrite !app_nil_r. auto.
-  - right. exists (Err e), [], []. cbn. rewrite !app_nil_r. auto.
+  - right. exists (Ok v), [], []. autorewrite with tc. rewrite !app_nil_r. auto.
+  - right. exists (Err e), [], []. autorewrite with tc. rewrite !app_nil_r. auto.
   - left. split; auto. repeat split; cbn; auto. eexists; reflexivity.
 Qed.
 
@@ -152,14 +166,14 @@ Qed.
 (* ---- the scheduler running the body ---- *)
 
 Lemma tcomplete_once s o : completed_once s (tcomplete s o).
-Proof. exists o, [], []. cbn. rewrite !app_nil_r. auto. Qed.
+Proof. exists o, [], []. autorewrite with tc. rewrite !app_nil_r. auto. Qed.
 
 Lemma exec_runs ph : forall s, truns (exec s ph) = truns s.
 Proof.
   induction ph as [|p ph IH]; intros s; cbn; auto.
   destruct (tout (irun (pclean p) s (pinner p))) eqn:E.
   - apply irun_runs.
-  - destruct (pdep p); [rewrite IH|cbn]; apply irun_runs.
+  - destruct (pdep p); [rewrite IH|rewrite tcomplete_runs]; apply irun_runs.
 Qed.
 
 (* running a started body to the end completes the task exactly once: by one of the inner
@@ -184,7 +198,7 @@ Proof.
     + apply (exec_completes_once ph (tmk None (tfin s) (tout s) (S (truns s)) (tsubs s) (tlog s) (tinner s))).
       exact H.
     + rewrite exec_runs. cbn. lia.
-  - split; [apply tcomplete_once|cbn; lia].
+  - split; [apply tcomplete_once|rewrite tcomplete_runs; lia].
 Qed.
 
 (* ---- top-level operations ---- *)
@@ -270,7 +284,7 @@ Proof.
   - split; [|intros _];
       destruct o; cbn; unfold tread; rewrite ?H; cbn; auto.
   - split; [|congruence].
-    destruct o; cbn; rewrite ?H; cbn; try lia.
+    destruct o; cbn; rewrite ?H; cbn; rewrite ?tcomplete_runs; try lia.
     + pose proof (tread_uncomputed s report_value H) as T. destruct (tread s report_value). cbn. apply T.
     + pose proof (tread_uncomputed s report_error H) as T. destruct (tread s report_error). cbn. apply T.
     + pose proof (tread_uncomputed s report_value H) as T. destruct (tread s report_value). cbn. apply T.
@@ -304,5 +318,18 @@ Example task_notify_nonvacuous :
   run_task [mkphase ViaBatch (CleanRaise 77) [ISubscribe 2 CbOk; ISetError 300; ISubscribe 3 CbOk; ISetValue VNone; IError] (Ok VNone)]
            (PRet (VInt 1)) [OSubscribe 1 CbRaise; OValue; OError]
   = ([RUnit; RRaise 300; RErr 300], [RUnit; RRaise 77; RUnit; RRaise E_ALREADY; RErr 300],
-     [(1, Err 300); (2, Err 300)], 1).
+     [(1, Err 300); (2, Err 300)], 1, [1; 2; 3]).
+Proof. reflexivity. Qed.
+
+(* non-vacuity of the re-entrant part: the task is cancelled while suspended; subscriber 1 is a
+   one-shot that unsubscribes itself, 2 (subscribed while suspended) drops the not yet notified 3
+   and subscribes 5, 3 unsubscribes the already notified 2: all of 1, 2, 3 are called once, 5 and
+   the later 4 are not; after reset_unsafe the next completion notifies the list as left behind *)
+Example task_reentrant_nonvacuous :
+  run_task [mkphase ViaFuture (CleanRaise 77)
+              [ISubscribe 2 (CbSeq (CbUnsub 3) (CbSub 5 CbOk)); ISubscribe 3 (CbUnsub 2); ISetError 300; ISubscribe 4 CbOk]
+              (Ok VNone)]
+           (PRet (VInt 1)) [OSubscribe 1 (CbUnsub 1); OError; OReset; OValue]
+  = ([RUnit; RErr 300; RUnit; RVal VNone], [RUnit; RUnit; RRaise 77; RUnit],
+     [(1, Err 300); (2, Err 300); (3, Err 300); (5, Ok VNone); (4, Ok VNone)], 1, [5; 4]).
 Proof. reflexivity. Qed.
